@@ -133,7 +133,7 @@ func c06PNG(rng *core.RNG, profile []byte, nameLen, level int, placement string,
 	switch placement {
 	case "after-IHDR":
 	case "after-chunks":
-		s.Pre = randAncillary(rng, 4, true)
+		s.Pre = append(colourChunks(rng, td[0]), randAncillary(rng, 4, true)...)
 		if len(s.Pre) == 0 {
 			s.Pre = []imggen.PNGChunk{{Type: "gAMA", Data: []byte{0, 0, 0xb1, 0x8f}}}
 		}
@@ -147,6 +147,9 @@ func c06PNG(rng *core.RNG, profile []byte, nameLen, level int, placement string,
 	stream := imggen.Deflate(profile, level)
 	switch damage {
 	case "":
+		if len(profile)%3 == 1 { // the zlib header declares the smallest window that fits, or one in between
+			icc.RawStream = zlibWindow(stream, len(profile), nameLen%8)
+		}
 	case "bad-zlib-header":
 		st := append([]byte{}, stream...)
 		st[0] = 0x79 // CM/CINFO that fails the FCHECK
